@@ -270,6 +270,28 @@ def correspond(ctx, scale):
         dist['eval_zero'] += 1
         if float(r0.entropy_aux_loss) != 0.0 or any(float(t) != 0.0 for t in bd0):
             fail(key + ':eval-nonzero', 'LFQ: a loss term is non-zero in evaluation mode', dict(cd=cd))
+    # frac_per_sample_entropy < 1: the sub-sampled tokens are an oracle, captured by replaying the RNG state (the first draw of the forward)
+    for ci in range((6 if not ctx.thorough else 30) * scale):
+        frac = [0.5, 0.25, 0.75][ci % 3]
+        q = LFQ(codebook_size=4, dim=2, frac_per_sample_entropy=frac, entropy_loss_weight=1.0, diversity_gamma=rng.choice([1.0, 0.5]))
+        q.train()
+        x = torch.randn(3, 4, 2)
+        st = torch.get_rng_state()
+        with torch.no_grad():
+            ret, bd = q(x, inv_temperature=2.0, return_loss_breakdown=True)
+            after = torch.get_rng_state()
+            torch.set_rng_state(st)
+            ntok = 12
+            rand_mask = torch.randn(ntok).argsort(dim=-1) < int(ntok * frac)
+            torch.set_rng_state(after)
+            toks = x.reshape(ntok, 1, 2)[rand_mask]
+            prob = torch.softmax(2 * 2.0 * torch.einsum('t c d, j d -> t c j', toks.double(), q.codebook.double()), dim=-1)
+            per = float(centropy(prob).mean())
+            cbe = float(centropy(prob.mean(dim=0)).mean())
+        ev += 1
+        dist['lfq_subsampled'] = dist.get('lfq_subsampled', 0) + 1
+        if not close(bd.per_sample_entropy, per, 1e-4) or not close(bd.batch_entropy, cbe, 1e-4):
+            fail(f'lfq:subsampled:frac={frac}', f'LFQ(frac_per_sample_entropy={frac}): reported entropies ({float(bd.per_sample_entropy):.6g}, {float(bd.batch_entropy):.6g}) != formulas on the sampled tokens ({per:.6g}, {cbe:.6g})', dict(frac=frac))
     dist['lfq_interval_goals'] = len(goals)
     for lab, why in certify(ctx, 'c17_iv', goals):
         fail('lfq:entropy-interval', f'LFQ per-token entropy {gmeta.get(lab)} is not within 1e-4 of the real-valued formula ({why})', gmeta.get(lab, {}))
